@@ -410,6 +410,8 @@ func jobsFor(prop, tier string) []job {
 			add(d, false, cap, "keyemu")
 		}
 		add(keyEmuSubScenario(), false, cap, "keyemu")
+		add(keyEmuCoincideScenario("interrupt"), false, cap, "keyemu")
+		add(keyEmuCoincideScenario("off"), false, cap, "keyemu")
 	}
 	return js
 }
